@@ -108,6 +108,8 @@ class Crate:
 
 # harness name -> extra CBMC options (the `// @cbmc <options>` annotation of a harness)
 EXTRA_CBMC_ARGS = {}
+# harness names whose first solver run already asks for counterexamples (`// @playback-first`)
+PLAYBACK_FIRST = set()
 
 
 def run_harness(crate, harness, timeout_s, mem_gb, outdir, playback=False, slot=None):
@@ -272,9 +274,12 @@ def run_many(jobs, workers, log, playback=False, deadline=None, followup=None, f
                     return {"harness": j[1], "crate": j[0].name, "rc": None, "secs": 0.0, "timed_out": False,
                             "checks": [], "status": "skipped", "stats": {}, "raw_tail": ""}
                 j = (j[0], j[1], min(j[2], int(left)), j[3], j[4])
-            # concrete playback is always requested: it costs nothing on a passing query and a failing
-            # one then already carries its counterexamples (no second solver run)
-            return run_harness(*j, playback=True, slot=s)
+            # Concrete playback in the first solver run only for harnesses annotated
+            # `// @playback-first` (slow kernels whose second, counterexample-producing run would not
+            # fit the tier budget). Requesting it for every query was tried and withdrawn: with
+            # --trace CBMC emits a trace for each of Kani's (failing-by-design) reachability checks,
+            # and 14 parallel kani-driver processes parsing those exhausted the 62 GB of RAM.
+            return run_harness(*j, playback=(j[1] in PLAYBACK_FIRST), slot=s)
         finally:
             slots.put(s)
 
